@@ -270,7 +270,7 @@ class Ctx:
             else:
                 rec.update(status='unknown', backend='z3', ms=ms, detail='goal is false but path feasibility unknown')
             self.obls.append(rec)
-            raise PathEnd()
+            return False        # keep going: later obligations of this path are still generated (nothing was assumed)
         g = z3bool(goal)
         self.s.push()
         self.s.add(z3.Not(_skolemize(g)))
